@@ -1436,6 +1436,122 @@ def rule_early_returns(res, rid, m):
         raise Broken("TECMP decoder/converter functions not found")
 
 
+def _first_byte_test(fn, a):
+    """atom a compares input byte 0 (`*data`, `data[0]` through a local copy of the pointer, or the frame header's version) with 0:
+    returns '==' / '!=' (the relation that holds) or None"""
+    if a[0] == "truth":
+        x, rel = a[3], ("!=" if a[2] else "==")
+    elif a[0] == "cmp" and a[2] in ("==", "!=") and (const_value(a[5]) == 0 or const_value(a[4]) == 0):
+        x, rel = (a[4] if const_value(a[5]) == 0 else a[5]), a[2]
+    else:
+        return None
+    x = strip_all_casts(facts.expand(fn, x))
+    data = fn.params[0]["decl"]
+
+    def from_data(p):
+        p = strip_all_casts(facts.expand(fn, p))
+        return p.get("k") == "ref" and p.get("decl") == data
+    if x.get("k") == "un" and x.get("op") == "*" and from_data(x["e"]):
+        return rel
+    if x.get("k") == "subscript" and const_value(x["idx"]) == 0 and from_data(x["base"]):
+        return rel
+    if x.get("k") == "call" and callee_name(x) == HDR + "::getVersion" and "obj" in x and from_data(x["obj"]):
+        return rel
+    return None
+
+
+def rule_entry_classification(res, rid, m, parts=("early-returns", "cm-path")):
+    """How decode sorts a buffer before the message walk.  (early-returns) it leaves without walking only when there is no buffer, when
+    the buffer cannot hold a frame header (size < K, K <= sizeof(CmpHeader)) or when it hands the buffer to the TECMP decoder under
+    `byte 0 == 0`: any stricter test (a minimum of header + message header, a plausibility check) makes frames of an endpoint vanish
+    without the invalid-message handling — an open reassembly of that endpoint is neither continued nor dropped.  (cm-path) the walk is
+    only reached with byte 0 != 0 established: a zero-leading buffer that is not handed to the TECMP decoder would be read as a frame of
+    endpoint (bytes 2-3, byte 5) and open or drop that endpoint's entry."""
+    fn, fb = m.decode, m.fb
+    H = fb.record(HDR)["size"]
+    sizep = fn.params[1]["decl"]
+    datap = fn.params[0]["decl"]
+    n = 0
+    if "early-returns" in parts:
+        for p in paths.enumerate_paths(fn, None, lambda b: b == m.loop_block):
+            if p.end != "exit":
+                continue
+            r = p.returns()
+            # what is known when the function leaves: the atoms of the path, one-line predicates looked through
+            known = []
+            for a in p.atoms:
+                known.append(a)
+                if a[0] == "truth" and isinstance(a[3], dict):
+                    known.extend(facts.conjuncts(a[3], a[2], fn)[1:])
+            reason = None
+            for a in known:
+                if _first_byte_test(fn, a) == "==":
+                    reason = "TECMP"
+                if a[0] == "cmp":
+                    for x, y, op in ((a[4], a[5], a[2]), (a[5], a[4], facts._flip_op(a[2]))):
+                        xs = strip_all_casts(facts.expand(fn, x))
+                        if xs.get("k") == "ref" and xs.get("decl") == sizep:
+                            c = const_value(strip_all_casts(facts.expand(fn, y)))
+                            if c is not None and ((op == "<" and c <= H) or (op == "<=" and c < H) or (op == "==" and c < H)):
+                                reason = reason or "no frame header"
+                        if xs.get("k") == "ref" and xs.get("decl") == datap and op == "==" and (strip_all_casts(y).get("null") or const_value(y) == 0):
+                            reason = reason or "no buffer"
+                if a[0] == "truth" and a[2] is False and strip_all_casts(facts.expand(fn, a[3])).get("decl") == datap:
+                    reason = reason or "no buffer"
+            n += 1
+            last = p.atoms[-1] if p.atoms else None
+            key = "decode:early-return@%s" % ((r.get("loc") or "").split(":", 1)[-1] if r else "?")
+            res.check(reason is not None, rid, key, (r or {}).get("loc") or fn.loc, "leaves before the walk only for: %s" % reason,
+                      "decode returns before the message walk under `%s %s %s`, which is neither 'no buffer', 'shorter than a frame header' nor the TECMP "
+                      "hand-over: such a frame of an endpoint with a reassembly in progress is neither walked nor does it drop the entry" %
+                      ((last[1][:50], last[2], str(last[3])[:40]) if last and last[0] == "cmp" else (last[1][:60] if last else "", "is", last[2] if last else "")))
+        # ... and the walk itself starts as soon as a single byte follows the frame header (a remainder too short for a message header is an
+        # invalid message, handled inside: it drops the endpoint's open reassembly)
+        leaf = fn.cfg.branch_leaf(m.loop_block)
+        a = facts.atom_of(leaf, True) if leaf is not None else None
+        if a is not None and a[0] == "cmp":
+            for x, y, o in ((a[4], a[5], a[2]), (a[5], a[4], facts._flip_op(a[2]))):
+                c = const_value(strip_all_casts(facts.expand(fn, y)))
+                if c is not None and (strip_all_casts(x).get("t") or {}).get("k") in ("int",):
+                    n += 1
+                    okc = (o == ">" and c < 1) or (o == ">=" and c <= 1) or (o == "!=" and c == 0)
+                    res.check(okc, rid, "decode:walk-starts-with-one-byte", leaf.get("loc"), "the walk is entered whenever at least one byte follows the frame header",
+                              "the message walk is only entered under `%s`: a frame with fewer bytes behind its header is dropped at the door instead of "
+                              "being handled as an invalid message (which drops the endpoint's open reassembly)" % canon(leaf)[:80])
+                    break
+    if "cm-path" in parts:
+        ok = any(_first_byte_test(fn, a) == "!=" for a in MustFacts(fn).at_block_entry(m.loop_block))
+        if not ok:
+            # path-sensitive: every path to the loop has established it (a join with an infeasible path loses the must-fact)
+            ps = [p for p in paths.enumerate_paths(fn, None, lambda b: b == m.loop_block) if p.end == "stop"]
+            ok = bool(ps) and all(any(_first_byte_test(fn, a) == "!=" for a in p.atoms) for p in ps)
+        n += 1
+        res.check(ok, rid, "decode:cm-path-excludes-zero-leading", fn.loc, "the message walk is only reached with input byte 0 != 0",
+                  "a buffer whose first byte is 0 can reach the capture-module message walk (it is not handed to the TECMP decoder on every path): it "
+                  "is read as a frame of endpoint (bytes 2-3, byte 5) and opens, continues or drops that endpoint's reassembly entry")
+    return n
+
+
+REASSEMBLY_READS = {HDR: ("Version", "DeviceId", "MessageType", "StreamId", "SequenceCounter"), MH: ("SegmentType", "PayloadLength")}
+
+
+def rule_header_reads(res, rid, ctx, fb):
+    """What the reassembler acts on is what the wire says: the getters it reads its key, counter, version, message type, segment type and
+    declared length through return exactly their wire fields (engine and oracle of C12; e.g. a segment-type getter that lets neighbouring
+    flag bits through makes a flagged segment look like no segment at all)."""
+    from cmpverif import accessors
+    obs, ast = accessors.analyse(fb, ctx.spec("layout.json"), scope=lambda cls, stem: cls in REASSEMBLY_READS and stem in REASSEMBLY_READS[cls])
+    n = 0
+    for o in obs:
+        if o.cls in REASSEMBLY_READS and o.tag == "position" and any(o.key.startswith("%s::get%s" % (o.cls, st)) for st in REASSEMBLY_READS[o.cls]):
+            res.check(o.ok, rid, "wire-read:" + o.key.replace("ASAM::CMP::", ""), o.loc, o.detail)
+            n += 1
+    accessors.require_supported(ast)
+    if n < 7:
+        raise Broken("reassembly: header getter obligations not found (%d)" % n)
+    return n
+
+
 def rule_output_sources(res, rid, m):
     """C18-R6: packets pushed to the result are built from the current buffer or from
     the current key's entry only."""
